@@ -276,6 +276,7 @@ func init() {
 			{Name: "samlines", QShards: 2, TShards: 6, Run: c11SamLines},
 			{Name: "fields", QShards: 2, TShards: 8, Run: c11Fields},
 			{Name: "bytes", Run: c11Bytes},
+			{Name: "prefixes", Run: c11Prefixes},
 			{Name: "parallel", Race: true, QShards: 2, TShards: 6, Run: codecParallel("fasta", "fastq", "sam", "samh", "bed", "newick")},
 			{Name: "histories", QShards: 2, TShards: 6, Run: codecHistories("fasta", "fastq", "sam", "samh", "bed", "newick")},
 			{Name: "fuzz", Thorough: true, Run: c11Fuzz},
@@ -584,4 +585,47 @@ func c11Bytes(c *Ctx) {
 		}
 	}
 	c.Exhaustive("bytes: every byte value at each marked place of the byte templates of every format")
+}
+
+// c11Prefixes: every magic prefix (byte order marks, compression magics,
+// comment / header / annotation markers of this and neighbouring formats) at
+// the start of the first text field of small valid texts — bare, and for Newick
+// also quoted (a reader that gives such bytes a meaning at the start of a
+// record accepts the quoted form, and the writer must then quote it too).
+func c11Prefixes(c *Ctx) {
+	tpls := map[string][]string{
+		"fasta":  {">P\nACGT\n", ">Pname\nAC\n>b\nG\n", ">a\nACGT\n>P\nAC\n"},
+		"fastq":  {"@P\nACGT\n+\n!!!!\n", "@Pname\nA\n+\n!\n@b\nC\n+\n#\n"},
+		"sam":    {"P\t0\tr\t1\t2\t3M\t=\t4\t5\tACG\t!!!\n", "Pq\t0\tr\t1\t2\t3M\t=\t4\t5\tACG\t!!!\tNM:i:1\n", "@HD\tVN:1\nPq\t0\tr\t1\t2\t3M\t=\t4\t5\tACG\t!!!\n"},
+		"bed":    {"P\t1\t2\n", "Pchr\t1\t2\tname\t5\t+\n", "c\t1\t2\nP\t3\t4\n"},
+		"newick": {"P;", "Px;", "'P';", "'Px';", "'P x':2.5;", "(a,b)c;'Px';", "('Px',b);", "(a,b)'P';", " 'P';", "\n'Px';"},
+		"ncbi":   {"P\n  A B\nA 1 2\nB 3 4\n", "#P\n  A B\nA 1 2\nB 3 4\n"},
+	}
+	idx := int64(0)
+	for _, f := range c11Formats {
+		for _, p := range magicPrefixes {
+			c.Case(idx, func(k *K) {
+				for ti, tpl := range tpls[f] {
+					pp := p
+					if f == "newick" && strings.Contains(tpl, "'P") {
+						pp = strings.ReplaceAll(p, "'", "''")
+					}
+					x := []byte(strings.ReplaceAll(tpl, "P", pp))
+					k.Input("format", f)
+					k.Input("prefix", p)
+					k.Input("template", ti)
+					k.Input("input", x)
+					decodeTotal(k, f, x)
+					k.Count("inputs_"+f, 1)
+					k.Count("prefix_template_inputs", 1)
+					k.Evals(1)
+					if k.Failed() {
+						return
+					}
+				}
+				k.Nontrivial([]byte(f), []byte(p))
+			})
+			idx++
+		}
+	}
 }
